@@ -625,3 +625,180 @@ Proof.
   - exfalso. apply Ht. lia.
   - exfalso. apply Ht. lia.
 Qed.
+
+Lemma skipn_cons_nth : forall (l : list N) n, n < length l -> skipn n l = nth n l 0%N :: skipn (S n) l.
+Proof.
+  induction l as [|x l IH]; intros n H; [cbn in H; lia|].
+  destruct n; [reflexivity|]. cbn [skipn nth]. apply IH. cbn in H. lia.
+Qed.
+
+Lemma skipn_add : forall {A} b a (l : list A), skipn b (skipn a l) = skipn (b + a) l.
+Proof.
+  intros A b a. revert b. induction a as [|a IH]; intros b l; [rewrite Nat.add_0_r; reflexivity|].
+  destruct l as [|x l]; [rewrite !skipn_nil; reflexivity|].
+  replace (b + S a) with (S (b + a)) by lia. cbn [skipn]. apply IH.
+Qed.
+Lemma split_skipn : forall (l : list N) a b, skipn a l = firstn b (skipn a l) ++ skipn (b + a) l.
+Proof. intros. rewrite <- skipn_add. symmetry. apply firstn_skipn. Qed.
+
+Lemma cons_nth0 : forall (l : list N), 1 <= length l -> l = nth 0 l 0%N :: skipn 1 l.
+Proof. intros l H. destruct l; [cbn in H; lia|reflexivity]. Qed.
+
+Lemma accepts_if_false : forall {A} (c : bool) (e : nat) (o : outcome A), accepts (if c then Err e else o) -> c = false /\ accepts o.
+Proof. intros A c e o H. destruct c; [destruct H; discriminate|auto]. Qed.
+
+Theorem clientHello_accepts_shape : forall data, accepts (clientHello_unmarshal data) -> ch_shape data.
+Proof.
+  intros data H. unfold clientHello_unmarshal in H.
+  apply accepts_if_false in H. destruct H as [E0 H]. apply Nat.ltb_ge in E0.
+  rewrite (byte_at_lt data 4) in H by lia. rewrite (byte_at_lt data 5) in H by lia. cbn [obind] in H.
+  rewrite slice_ok in H by lia. cbn [obind] in H. rewrite (byte_at_lt data 38) in H by lia. cbn [obind] in H.
+  set (sidl := N.to_nat (nth 38 data 0%N)) in *.
+  apply accepts_if_false in H. destruct H as [E H].
+  apply orb_false_iff in E. destruct E as [E1 E2]. apply Nat.ltb_ge in E1. apply Nat.ltb_ge in E2.
+  rewrite slice_ok in H by lia. cbn [obind] in H. rewrite slice_from_le in H by lia. cbn [obind] in H.
+  set (d1 := skipn (39 + sidl) data) in *. assert (Hd1 : length d1 = length data - (39 + sidl)) by apply skipn_length.
+  apply accepts_if_false in H. destruct H as [E H]. apply Nat.ltb_ge in E.
+  rewrite (byte_at_lt d1 0) in H by lia. rewrite (byte_at_lt d1 1) in H by lia. cbn [obind] in H.
+  set (csl := u16n (nth 0 d1 0%N) (nth 1 d1 0%N)) in *.
+  apply accepts_if_false in H. destruct H as [E' H].
+  apply orb_false_iff in E'. destruct E' as [E3 E4]. apply Nat.ltb_ge in E4. apply Nat.eqb_neq in E3.
+  destruct (ch_suites_loop_total (csl / 2) 0 d1) as [[suites reneg] Hs].
+  { pose proof (Nat.div_mod csl 2). assert (csl mod 2 < 2) by (apply Nat.mod_upper_bound; lia). lia. }
+  rewrite Hs in H. cbn [obind] in H. rewrite (slice_from_le d1) in H by lia. cbn [obind] in H.
+  set (d2 := skipn (2 + csl) d1) in *. assert (Hd2 : length d2 = length d1 - (2 + csl)) by apply skipn_length.
+  apply accepts_if_false in H. destruct H as [E5 H]. apply Nat.ltb_ge in E5.
+  rewrite (byte_at_lt d2 0) in H by lia. cbn [obind] in H.
+  set (cml := N.to_nat (nth 0 d2 0%N)) in *.
+  apply accepts_if_false in H. destruct H as [E6 H]. apply Nat.ltb_ge in E6.
+  rewrite (slice_ok d2) in H by lia. cbn [obind] in H. rewrite (slice_from_le d2) in H by lia. cbn [obind] in H.
+  set (d3 := skipn (1 + cml) d2) in *.
+  (* the decomposition of data *)
+  assert (Edata : data = firstn 4 data ++ nth 4 data 0%N :: nth 5 data 0%N :: firstn 32 (skipn 6 data) ++ nth 38 data 0%N ::
+                         firstn sidl (skipn 39 data) ++ nth 0 d1 0%N :: nth 1 d1 0%N :: firstn csl (skipn 2 d1) ++
+                         nth 0 d2 0%N :: firstn cml (skipn 1 d2) ++ d3).
+  { rewrite <- (firstn_skipn 4 data) at 1. f_equal.
+    rewrite (skipn_cons_nth data 4) by lia. f_equal. rewrite (skipn_cons_nth data 5) by lia. f_equal.
+    etransitivity; [apply (split_skipn data 6 32)|]. f_equal. change (32 + 6) with 38.
+    rewrite (skipn_cons_nth data 38) by lia. f_equal.
+    etransitivity; [apply (split_skipn data 39 sidl)|]. f_equal. replace (sidl + 39) with (39 + sidl) by lia. fold d1.
+    etransitivity; [apply (cons_nth0 d1); lia|]. f_equal. rewrite (skipn_cons_nth d1 1) by lia. f_equal.
+    etransitivity; [apply (split_skipn d1 2 csl)|]. f_equal. replace (csl + 2) with (2 + csl) by lia. fold d2.
+    etransitivity; [apply (cons_nth0 d2); lia|]. f_equal.
+    etransitivity; [apply (split_skipn d2 1 cml)|]. f_equal. replace (cml + 1) with (1 + cml) by lia. reflexivity. }
+  rewrite Edata. constructor.
+  - rewrite firstn_length. lia.
+  - rewrite firstn_length, skipn_length. lia.
+  - rewrite firstn_length, skipn_length. fold sidl. lia.
+  - rewrite firstn_length, skipn_length. lia.
+  - rewrite firstn_length, skipn_length. fold csl. lia.
+  - apply even_mod2. rewrite firstn_length, skipn_length. rewrite Nat.min_l by lia. destruct (mod2_cases csl); [assumption|contradiction].
+  - rewrite firstn_length, skipn_length. fold cml. lia.
+  - (* extensions *)
+    clear Edata. clearbody d3. destruct d3 as [|y d3']; [left; reflexivity|]. right.
+    cbn iota in H. remember (y :: d3') as d3 eqn:Ed3.
+    assert (Hd3 : 1 <= length d3) by (rewrite Ed3; cbn; lia).
+    apply accepts_if_false in H. destruct H as [E7 H]. apply Nat.ltb_ge in E7.
+    rewrite (byte_at_lt d3 0) in H by lia. rewrite (byte_at_lt d3 1) in H by lia. cbn [obind] in H.
+    rewrite (slice_from_le d3) in H by lia. cbn [obind] in H.
+    apply accepts_if_false in H. destruct H as [E8 H]. apply negb_false_iff in E8. apply Nat.eqb_eq in E8.
+    exists (nth 0 d3 0%N), (nth 1 d3 0%N), (skipn 2 d3). split; [|split].
+    + etransitivity; [apply (cons_nth0 d3); lia|]. f_equal. rewrite (skipn_cons_nth d3 1) by lia. reflexivity.
+    + symmetry. exact E8.
+    + apply (ch_ext_loop_accepts _ _ _ (Nat.lt_succ_diag_r _)) in H. exact H.
+Qed.
+
+Lemma skipn_app_len : forall {A} (l r : list A) n, n = length l -> skipn n (l ++ r) = r.
+Proof. intros; subst; apply skipn_app_exact. Qed.
+Lemma firstn_app_len : forall {A} (l r : list A) n, n = length l -> firstn n (l ++ r) = l.
+Proof. intros; subst; apply firstn_app_exact. Qed.
+
+(* the part after the session id *)
+Lemma ch_rest_accepts : forall v random sid c0 c1 suites cl comp ext,
+  length suites = u16n c0 c1 -> Nat.even (length suites) = true -> length comp = N.to_nat cl -> ch_ext_part_ok ext ->
+  let data1 := c0 :: c1 :: suites ++ cl :: comp ++ ext in
+  accepts
+    (if Nat.ltb (length data1) 2 then Err 1
+     else
+       do c0 <- byte_at data1 0;
+       do c1 <- byte_at data1 1;
+       let cipherSuiteLen := u16n c0 c1 in
+       if Nat.eqb (cipherSuiteLen mod 2) 1 || Nat.ltb (length data1) (2 + cipherSuiteLen) then Err 1
+       else
+         do '(suites, reneg) <- ch_suites_loop (cipherSuiteLen / 2) 0 data1;
+         do data2 <- slice_from data1 (2 + cipherSuiteLen);
+         if Nat.ltb (length data2) 1 then Err 1
+         else
+           do cl <- byte_at data2 0;
+           let compressionMethodsLen := N.to_nat cl in
+           if Nat.ltb (length data2) (1 + compressionMethodsLen) then Err 1
+           else
+             do comp <- slice data2 1 (1 + compressionMethodsLen);
+             do data3 <- slice_from data2 (1 + compressionMethodsLen);
+             let m := mkCHF v random sid suites comp false [] false [] [] false [] [] reneg [] [] false in
+             match data3 with
+             | [] => Ok m
+             | _ =>
+               if Nat.ltb (length data3) 2 then Err 1
+               else
+                 do x0 <- byte_at data3 0;
+                 do x1 <- byte_at data3 1;
+                 do data4 <- slice_from data3 2;
+                 if negb (Nat.eqb (u16n x0 x1) (length data4)) then Err 1
+                 else ch_ext_loop (S (length data4)) data4 m
+             end).
+Proof.
+  intros v random sid c0 c1 suites cl comp ext Hs Hev Hc Hext data1.
+  assert (Hl1 : length data1 = 2 + length suites + 1 + length comp + length ext).
+  { unfold data1. cbn [length]. rewrite app_length. cbn [length]. rewrite app_length. lia. }
+  destruct (Nat.ltb_spec (length data1) 2); [lia|].
+  unfold data1 at 1 2. cbn [byte_at nth_error obind]. rewrite <- Hs.
+  apply even_mod2 in Hev.
+  destruct (Nat.eqb_spec (length suites mod 2) 1); [lia|]. cbn [orb].
+  destruct (Nat.ltb_spec (length data1) (2 + length suites)); [lia|].
+  destruct (ch_suites_loop_total (length suites / 2) 0 data1) as [[su reneg] Hsu].
+  { pose proof (Nat.div_mod (length suites) 2). lia. }
+  rewrite Hsu. cbn [obind].
+  rewrite slice_from_le by lia. cbn [obind].
+  assert (Ed2 : skipn (2 + length suites) data1 = cl :: comp ++ ext).
+  { unfold data1. cbn [Nat.add skipn]. apply skipn_app_exact. }
+  rewrite Ed2. cbn [length]. change (Nat.ltb (S (length (comp ++ ext))) 1) with false. cbn iota.
+  cbn [byte_at nth_error obind]. rewrite <- Hc.
+  destruct (Nat.ltb_spec (S (length (comp ++ ext))) (1 + length comp)); [rewrite app_length in *; lia|].
+  rewrite slice_ok by (cbn [length]; rewrite ?app_length; lia). cbn [obind].
+  rewrite slice_from_le by (cbn [length]; rewrite ?app_length; lia). cbn [obind].
+  cbn [Nat.add skipn]. rewrite skipn_app_exact.
+  destruct Hext as [->|[x0 [x1 [blk [-> [Hb Hok]]]]]]; [apply accepts_ok|].
+  cbn [length]. change (Nat.ltb (S (S (length blk))) 2) with false. cbn iota.
+  cbn [byte_at nth_error obind slice_from length Nat.leb skipn].
+  rewrite <- Hb. rewrite Nat.eqb_refl. cbn [negb].
+  apply ch_ext_loop_accepts; [lia|exact Hok].
+Qed.
+
+Theorem clientHello_shape_accepts : forall data, ch_shape data -> accepts (clientHello_unmarshal data).
+Proof.
+  intros data H. destruct H as [hdr v0 v1 random sl sid c0 c1 suites cl comp ext Hh Hr Hsid Hsid32 Hs Hev Hc Hext].
+  destruct hdr as [|h0 [|h1 [|h2 [|h3 [|]]]]]; try discriminate. clear Hh.
+  do 32 (destruct random as [|? random]; [discriminate|]). destruct random; [|discriminate]. clear Hr.
+  set (rest := c0 :: c1 :: suites ++ cl :: comp ++ ext).
+  cbn [app]. unfold clientHello_unmarshal.
+  match goal with |- context [Nat.ltb (length ?d) 42] => set (data := d) end.
+  assert (Hl : length data = 39 + length sid + length rest).
+  { unfold data. cbn [length]. rewrite app_length. lia. }
+  destruct (Nat.ltb_spec (length data) 42) as [Hlt|_].
+  { unfold rest in Hl. cbn [length] in Hl. rewrite app_length in Hl. cbn [length] in Hl. lia. }
+  assert (B4 : byte_at data 4 = Ok v0) by reflexivity.
+  assert (B5 : byte_at data 5 = Ok v1) by reflexivity.
+  assert (B38 : byte_at data 38 = Ok sl) by reflexivity.
+  rewrite B4, B5. cbn [obind]. rewrite slice_ok by lia. cbn [obind]. rewrite B38. cbn [obind]. rewrite <- Hsid.
+  destruct (Nat.ltb_spec 32 (length sid)); [lia|]. cbn [orb].
+  destruct (Nat.ltb_spec (length data) (39 + length sid)); [lia|].
+  rewrite slice_ok by lia. cbn [obind]. rewrite slice_from_le by lia. cbn [obind].
+  assert (Ed1 : skipn (39 + length sid) data = rest).
+  { unfold data. cbn [Nat.add skipn]. apply skipn_app_exact. }
+  rewrite Ed1.
+  apply (ch_rest_accepts _ _ _ c0 c1 suites cl comp ext Hs Hev Hc Hext).
+Qed.
+
+Theorem clientHello_accepts_iff : forall data, accepts (clientHello_unmarshal data) <-> ch_shape data.
+Proof. intros. split; [apply clientHello_accepts_shape|apply clientHello_shape_accepts]. Qed.
